@@ -11,19 +11,22 @@ whose first clause is `panics = 0`.
 import AvoVerif.Model.Ctx
 namespace Avo.Ctx
 
+-- the toolchain's tag-character predicate: every statement below holds for all of them
+variable (tc : Char → Bool)
+
 /-! ## What a builder-time fault is (declarative; independent of `step`) -/
 
 def noFn (c : Ctx) : Option ErrClass := if c.cur.isNone then some .noFunc else none
 def noGl (c : Ctx) : Option ErrClass := if c.glob.isNone then some .noGlobal else none
 
-/-- `fault c op = some e`: request `op` is invalid in state `c`, and `e` is what is wrong with it.
+/-- `fault tc c op = some e`: request `op` is invalid in state `c`, and `e` is what is wrong with it.
 * anything that needs the active function / data section while there is none;
 * operands matching no form; a signature expression the type checker rejects;
 * Load/Store/Dereference of a component that does not resolve to a primitive
   (unknown name, index out of range, navigation on the wrong type, …), or for
   which no MOV can be deduced;
-* a datum overlapping an existing one; an invalid build constraint. -/
-def fault (c : Ctx) : Op → Option ErrClass
+* a datum overlapping an existing one or placed at a negative offset; an invalid build constraint. -/
+def fault (tc : Char → Bool) (c : Ctx) : Op → Option ErrClass
   | .function _ | .staticGlobal _ | .pressure _ _ _ | .nav _ _ | .nilArg _ => none
   | .implement _ => some .noPackage
   | .attributes _ | .doc _ | .pragma _ | .label _ | .comment | .rawInstr _ | .allocLocal _
@@ -39,27 +42,30 @@ def fault (c : Ctx) : Op → Option ErrClass
       match c.glob with
       | none => some .noGlobal
       | some g => if g.overlapsAny off sz then some .overlap else none
-  | .constraints cs => if constraintsValid cs then none else some .constraint
-  | .constraint k | .constraintExpr k =>
-      if constraintsValid (c.cons ++ [k]) then none else some .constraint
+  | .addDatumNeg _ _ => some (if c.glob.isNone then .noGlobal else .negOffset)
+  | .constraints cs => if constraintsValid tc cs then none else some .constraint
+  | .constraint k =>
+      if constraintsValid tc (c.cons ++ [k]) then none else some .constraint
+  | .constraintExpr text =>
+      if constraintsValid tc (c.cons ++ [parseConstraint text]) then none else some .constraint
 
 /-- The faults of a history started in state `c`, in order. -/
-def faults (c : Ctx) : List Op → List ErrClass
+def faults (tc : Char → Bool) (c : Ctx) : List Op → List ErrClass
   | [] => []
-  | op :: ops => (fault c op).toList ++ faults (step c op) ops
+  | op :: ops => (fault tc c op).toList ++ faults tc (step tc c op) ops
 
 /-- State before the `k`-th request of a history started in `c`. -/
-def stateAt (c : Ctx) (ops : List Op) (k : Nat) : Ctx := run c (ops.take k)
+def stateAt (tc : Char → Bool) (c : Ctx) (ops : List Op) (k : Nat) : Ctx := run tc c (ops.take k)
 
 /-- The `k`-th request of the history is a fault in the state it is issued in. -/
-def faultAt (c : Ctx) (ops : List Op) (k : Nat) : Bool :=
+def faultAt (tc : Char → Bool) (c : Ctx) (ops : List Op) (k : Nat) : Bool :=
   match ops[k]? with
-  | some op => (fault (stateAt c ops k) op).isSome
+  | some op => (fault tc (stateAt tc c ops k) op).isSome
   | none => false
 
 /-- Number of faulting requests of a history. -/
-def numFaults (c : Ctx) (ops : List Op) : Nat :=
-  ((List.range ops.length).filter (faultAt c ops)).length
+def numFaults (tc : Char → Bool) (c : Ctx) (ops : List Op) : Nat :=
+  ((List.range ops.length).filter (faultAt tc c ops)).length
 
 /-! ## Basic facts about the state updates -/
 
@@ -96,7 +102,7 @@ theorem loadStore_errs (c : Ctx) (s rk : Nat) (ded st : Bool) :
     · simp [Comp.resolveErr, hp]
 
 theorem constraintsValid_append (cs : List Constraint) (k : Constraint) :
-    constraintsValid (cs ++ [k]) = (constraintsValid cs && constraintValid k) := by
+    constraintsValid tc (cs ++ [k]) = (constraintsValid tc cs && constraintValid tc k) := by
   simp [constraintsValid, List.all_append]
 
 /-! ## errs_monotone -/
@@ -105,7 +111,7 @@ theorem constraintsValid_append (cs : List Constraint) (k : Constraint) :
 earlier errors in place and appends exactly one error if it is a builder-time
 fault in that state, and none otherwise. -/
 theorem errs_monotone (c : Ctx) (op : Op) :
-    (step c op).errs = c.errs ++ (fault c op).toList := by
+    (step tc c op).errs = c.errs ++ (fault tc c op).toList := by
   cases op with
   | function n => simp [step, fault]
   | attributes a => simp [step, fault, withFn_errs]
@@ -134,46 +140,48 @@ theorem errs_monotone (c : Ctx) (op : Op) :
     cases c.glob with
     | none => simp
     | some g => by_cases h : g.overlapsAny off sz = true <;> simp [h]
+  | addDatumNeg b sz => simp [step, fault]
   | appendDatum sz => simp [step, fault, withGlob_errs]
-  | constraints cs => by_cases h : constraintsValid cs = true <;> simp [step, fault, h]
-  | constraint k => by_cases h : constraintsValid (c.cons ++ [k]) = true <;> simp [step, fault, h]
-  | constraintExpr k =>
+  | constraints cs => by_cases h : constraintsValid tc cs = true <;> simp [step, fault, h]
+  | constraint k => by_cases h : constraintsValid tc (c.cons ++ [k]) = true <;> simp [step, fault, h]
+  | constraintExpr text =>
     simp only [step, fault, constraintsValid_append]
-    by_cases hk : constraintValid k = true <;> by_cases hc : constraintsValid c.cons = true <;> simp [hk, hc]
+    by_cases hk : constraintValid tc (parseConstraint text) = true <;>
+      by_cases hc : constraintsValid tc c.cons = true <;> simp [hk, hc]
   | pressure n k m => simp [step, fault, addNode_errs, noFn]
 
 /-- One request adds at most one error, and exactly one iff it is a fault. -/
 theorem step_errs_length (c : Ctx) (op : Op) :
-    (step c op).errs.length = c.errs.length + (if (fault c op).isSome then 1 else 0) := by
-  rw [errs_monotone]; cases fault c op <;> simp
+    (step tc c op).errs.length = c.errs.length + (if (fault tc c op).isSome then 1 else 0) := by
+  rw [errs_monotone]; cases fault tc c op <;> simp
 
 /-! ## Histories -/
 
-theorem run_cons (c : Ctx) (op : Op) (ops : List Op) : run c (op :: ops) = run (step c op) ops := rfl
+theorem run_cons (c : Ctx) (op : Op) (ops : List Op) : run tc c (op :: ops) = run tc (step tc c op) ops := rfl
 
-theorem run_append (c : Ctx) (xs ys : List Op) : run c (xs ++ ys) = run (run c xs) ys := by
+theorem run_append (c : Ctx) (xs ys : List Op) : run tc c (xs ++ ys) = run tc (run tc c xs) ys := by
   simp [run, List.foldl_append]
 
 /-- The errors after a history are the errors before it followed by exactly its faults. -/
-theorem run_errs (c : Ctx) (ops : List Op) : (run c ops).errs = c.errs ++ faults c ops := by
+theorem run_errs (c : Ctx) (ops : List Op) : (run tc c ops).errs = c.errs ++ faults tc c ops := by
   induction ops generalizing c with
   | nil => simp [run, faults]
   | cons op ops ih => rw [run_cons, ih, errs_monotone, faults, List.append_assoc]
 
 /-- An error, once recorded, is never dropped or reordered by any later sequence of requests. -/
-theorem errs_prefix (c : Ctx) (ops : List Op) : c.errs <+: (run c ops).errs := by
+theorem errs_prefix (c : Ctx) (ops : List Op) : c.errs <+: (run tc c ops).errs := by
   rw [run_errs]; exact List.prefix_append _ _
 
 theorem faultAt_zero (c : Ctx) (op : Op) (ops : List Op) :
-    faultAt c (op :: ops) 0 = (fault c op).isSome := by
+    faultAt tc c (op :: ops) 0 = (fault tc c op).isSome := by
   simp [faultAt, stateAt, run]
 
 theorem faultAt_succ (c : Ctx) (op : Op) (ops : List Op) (k : Nat) :
-    faultAt c (op :: ops) (k + 1) = faultAt (step c op) ops k := by
+    faultAt tc c (op :: ops) (k + 1) = faultAt tc (step tc c op) ops k := by
   simp [faultAt, stateAt, run_cons]
 
 /-- The list of faults has one entry per faulting position. -/
-theorem faults_length (c : Ctx) (ops : List Op) : (faults c ops).length = numFaults c ops := by
+theorem faults_length (c : Ctx) (ops : List Op) : (faults tc c ops).length = numFaults tc c ops := by
   induction ops generalizing c with
   | nil => simp [faults, numFaults]
   | cons op ops ih =>
@@ -181,13 +189,13 @@ theorem faults_length (c : Ctx) (ops : List Op) : (faults c ops).length = numFau
       rw [List.range_succ_eq_map]
     simp only [faults, numFaults, List.length_cons, List.length_append, hr, List.filter_cons,
       faultAt_zero, List.filter_map, ih]
-    have hf : (faultAt c (op :: ops) ∘ fun x => x + 1) = faultAt (step c op) ops := by
+    have hf : (faultAt tc c (op :: ops) ∘ fun x => x + 1) = faultAt tc (step tc c op) ops := by
       funext k; simp [Function.comp, faultAt_succ]
     rw [hf]
-    cases fault c op <;> simp <;> omega
+    cases fault tc c op <;> simp <;> omega
 
 theorem faults_eq_nil_iff (c : Ctx) (ops : List Op) :
-    faults c ops = [] ↔ ∀ k, faultAt c ops k = false := by
+    faults tc c ops = [] ↔ ∀ k, faultAt tc c ops k = false := by
   induction ops generalizing c with
   | nil => simp [faults, faultAt]
   | cons op ops ih =>
@@ -195,43 +203,43 @@ theorem faults_eq_nil_iff (c : Ctx) (ops : List Op) :
     constructor
     · intro ⟨h0, hs⟩ k
       cases k with
-      | zero => rw [faultAt_zero]; cases h : fault c op <;> simp_all
+      | zero => rw [faultAt_zero]; cases h : fault tc c op <;> simp_all
       | succ k => rw [faultAt_succ]; exact hs k
     · intro h
       refine ⟨?_, fun k => ?_⟩
-      · have := h 0; rw [faultAt_zero] at this; cases hf : fault c op <;> simp_all
+      · have := h 0; rw [faultAt_zero] at this; cases hf : fault tc c op <;> simp_all
       · have := h (k + 1); rwa [faultAt_succ] at this
 
 /-- **bad_never_masked.** For every history: if any request is a fault in the
 state it is issued in, then — whatever valid or invalid requests follow —
 `Result()` is an error, carrying exactly one message per faulting request (in
 request order). -/
-theorem bad_never_masked (ops : List Op) (h : ∃ k, faultAt Ctx.init ops k = true) :
-    ∃ es, result (run Ctx.init ops) = .error es ∧ es = faults Ctx.init ops ∧
-      es.length = numFaults Ctx.init ops ∧ es ≠ [] := by
-  have hne : faults Ctx.init ops ≠ [] := by
+theorem bad_never_masked (ops : List Op) (h : ∃ k, faultAt tc Ctx.init ops k = true) :
+    ∃ es, result (run tc Ctx.init ops) = .error es ∧ es = faults tc Ctx.init ops ∧
+      es.length = numFaults tc Ctx.init ops ∧ es ≠ [] := by
+  have hne : faults tc Ctx.init ops ≠ [] := by
     intro hnil
     obtain ⟨k, hk⟩ := h
-    have := (faults_eq_nil_iff _ _).mp hnil k
+    have := (faults_eq_nil_iff tc _ _).mp hnil k
     simp [hk] at this
-  have he : (run Ctx.init ops).errs = faults Ctx.init ops := by
+  have he : (run tc Ctx.init ops).errs = faults tc Ctx.init ops := by
     rw [run_errs]; rfl
-  refine ⟨faults Ctx.init ops, ?_, rfl, faults_length _ _, hne⟩
+  refine ⟨faults tc Ctx.init ops, ?_, rfl, faults_length tc _ _, hne⟩
   unfold result
   rw [he]
-  cases hf : faults Ctx.init ops with
+  cases hf : faults tc Ctx.init ops with
   | nil => exact absurd hf hne
   | cons a as => simp
 
 /-- **valid_no_error.** A history in which no request is a fault produces no error. -/
-theorem valid_no_error (ops : List Op) (h : ∀ k, faultAt Ctx.init ops k = false) :
-    result (run Ctx.init ops) = .ok ∧ (run Ctx.init ops).errs = [] := by
-  have he : (run Ctx.init ops).errs = [] := by
-    rw [run_errs, (faults_eq_nil_iff _ _).mpr h]; rfl
+theorem valid_no_error (ops : List Op) (h : ∀ k, faultAt tc Ctx.init ops k = false) :
+    result (run tc Ctx.init ops) = .ok ∧ (run tc Ctx.init ops).errs = [] := by
+  have he : (run tc Ctx.init ops).errs = [] := by
+    rw [run_errs, (faults_eq_nil_iff tc _ _).mpr h]; rfl
   exact ⟨by simp [result, he], he⟩
 
 /-- The number of error messages always equals the number of faulting requests. -/
-theorem errs_count (ops : List Op) : (run Ctx.init ops).errs.length = numFaults Ctx.init ops := by
+theorem errs_count (ops : List Op) : (run tc Ctx.init ops).errs.length = numFaults tc Ctx.init ops := by
   rw [run_errs, ← faults_length]; simp [Ctx.init]
 
 /-! ## Component chaining -/
@@ -247,12 +255,12 @@ theorem component_chain (e : ErrClass) (navs : List Nav) :
 /-- … and Load/Store/Dereference of it is a fault reporting that very error, in every state. -/
 theorem component_chain_reported (c : Ctx) (s rk : Nat) (ded : Bool) (e : ErrClass) (navs : List Nav)
     (h : c.getComp s = navs.foldl Comp.nav (.err e)) :
-    fault c (.load s rk ded) = some e ∧ fault c (.store s rk ded) = some e ∧
-      fault c (.dereference s ded) = some e := by
+    fault tc c (.load s rk ded) = some e ∧ fault tc c (.store s rk ded) = some e ∧
+      fault tc c (.dereference s ded) = some e := by
   simp [fault, h, component_chain]
 
 /-- Navigation itself never reports anything: the error surfaces only at `Resolve`. -/
-theorem nav_no_fault (c : Ctx) (s : Nat) (n : Nav) : fault c (.nav s n) = none := rfl
+theorem nav_no_fault (c : Ctx) (s : Nat) (n : Nav) : fault tc c (.nav s n) = none := rfl
 
 /-! ## Concat and Main -/
 
@@ -416,8 +424,8 @@ def numNil (ops : List Op) : Nat := (ops.filter Op.isNil).length
 
 /-- What the model observes for a history under the standard configuration
 (`Compile`, assembly printer, stub printer; unlimited errors). -/
-def observe (lim : Nat → Nat) (ops : List Op) : Observed :=
-  let c := run Ctx.init ops
+def observe (tc : Char → Bool) (lim : Nat → Nat) (ops : List Op) : Observed :=
+  let c := run tc Ctx.init ops
   let o := main 0 (stdPasses lim c) c
   { errs := c.errs.length, status := o.status,
     asm := if o.printed.contains 1 then 1 else 0,
@@ -426,26 +434,26 @@ def observe (lim : Nat → Nat) (ops : List Op) : Observed :=
     passErr := if c.errs.isEmpty then (passFaults lim c.fns).head? else none }
 
 /-- The stub printer is reached (no builder-time fault, no compile-time fault) and fails. -/
-def stubFailureReached (lim : Nat → Nat) (ops : List Op) : Prop :=
-  numFaults Ctx.init ops = 0 ∧ passFaults lim (run Ctx.init ops).fns = [] ∧ stubFails (run Ctx.init ops) = true
+def stubFailureReached (tc : Char → Bool) (lim : Nat → Nat) (ops : List Op) : Prop :=
+  numFaults tc Ctx.init ops = 0 ∧ passFaults lim (run tc Ctx.init ops).fns = [] ∧ stubFails (run tc Ctx.init ops) = true
 
-instance (lim ops) : Decidable (stubFailureReached lim ops) := by
+instance (lim ops) : Decidable (stubFailureReached tc lim ops) := by
   unfold stubFailureReached; exact inferInstance
 
-def C18_statement : Prop :=
-  ∀ (lim : Nat → Nat) (ops : List Op), ¬ stubFailureReached lim ops →
-    Spec (numFaults Ctx.init ops) (numNil ops) (stubFails (run Ctx.init ops))
-      (passFaults lim (run Ctx.init ops).fns) (observe lim ops)
+def C18_statement (tc : Char → Bool) : Prop :=
+  ∀ (lim : Nat → Nat) (ops : List Op), ¬ stubFailureReached tc lim ops →
+    Spec (numFaults tc Ctx.init ops) (numNil ops) (stubFails (run tc Ctx.init ops))
+      (passFaults lim (run tc Ctx.init ops).fns) (observe tc lim ops)
 
 /-- **C18.** The model of the builder and of `Main` meets the property for all
 histories (and all register-file sizes) on which the stub printer is not reached
 or does not fail. -/
-theorem C18 : C18_statement := by
+theorem C18 : C18_statement tc := by
   intro lim ops hstub
-  have hcount := errs_count ops
+  have hcount := errs_count tc ops
   unfold stubFailureReached at hstub
-  generalize hc : run Ctx.init ops = c at hcount hstub
-  generalize numFaults Ctx.init ops = nf at hcount hstub
+  generalize hc : run tc Ctx.init ops = c at hcount hstub
+  generalize numFaults tc Ctx.init ops = nf at hcount hstub
   unfold Spec observe
   simp only [hc]
   have herr : nf > 0 → result c = .error c.errs := by
@@ -477,19 +485,19 @@ theorem C18 : C18_statement := by
 the model — which here does what the implementation does: `pass.Output` of the
 assembly printer has already written — violates the property: non-zero status
 with the assembly output written. -/
-theorem stub_failure_violates (lim : Nat → Nat) (ops : List Op) (h : stubFailureReached lim ops) :
-    (observe lim ops).status = 1 ∧ (observe lim ops).asm = 1 ∧
-    ¬ Spec (numFaults Ctx.init ops) (numNil ops) (stubFails (run Ctx.init ops))
-      (passFaults lim (run Ctx.init ops).fns) (observe lim ops) := by
+theorem stub_failure_violates (lim : Nat → Nat) (ops : List Op) (h : stubFailureReached tc lim ops) :
+    (observe tc lim ops).status = 1 ∧ (observe tc lim ops).asm = 1 ∧
+    ¬ Spec (numFaults tc Ctx.init ops) (numNil ops) (stubFails (run tc Ctx.init ops))
+      (passFaults lim (run tc Ctx.init ops).fns) (observe tc lim ops) := by
   obtain ⟨hz, hpf, hsf⟩ := h
-  have hcount := errs_count ops
+  have hcount := errs_count tc ops
   rw [hz] at hcount
-  have he : (run Ctx.init ops).errs = [] := by
-    cases h : (run Ctx.init ops).errs with
+  have he : (run tc Ctx.init ops).errs = [] := by
+    cases h : (run tc Ctx.init ops).errs with
     | nil => rfl
     | cons a as => rw [h] at hcount; simp at hcount
-  have hres : result (run Ctx.init ops) = .ok := by simp [result, he]
-  have hst : (observe lim ops).status = 1 ∧ (observe lim ops).asm = 1 := by
+  have hres : result (run tc Ctx.init ops) = .ok := by simp [result, he]
+  have hst : (observe tc lim ops).status = 1 ∧ (observe tc lim ops).asm = 1 := by
     simp [observe, main, hres, stdPasses, concat, concatFrom, hpf, hsf]
   refine ⟨hst.1, hst.2, ?_⟩
   intro hspec
@@ -500,9 +508,9 @@ theorem stub_failure_violates (lim : Nat → Nat) (ops : List Op) (h : stubFailu
 /-- The two together: the model meets the property exactly on the histories
 where a failing stub printer is not reached. -/
 theorem C18_iff (lim : Nat → Nat) (ops : List Op) :
-    Spec (numFaults Ctx.init ops) (numNil ops) (stubFails (run Ctx.init ops))
-      (passFaults lim (run Ctx.init ops).fns) (observe lim ops) ↔ ¬ stubFailureReached lim ops :=
-  ⟨fun hs hr => (stub_failure_violates lim ops hr).2.2 hs, C18 lim ops⟩
+    Spec (numFaults tc Ctx.init ops) (numNil ops) (stubFails (run tc Ctx.init ops))
+      (passFaults lim (run tc Ctx.init ops).fns) (observe tc lim ops) ↔ ¬ stubFailureReached tc lim ops :=
+  ⟨fun hs hr => (stub_failure_violates tc lim ops hr).2.2 hs, C18 tc lim ops⟩
 
 /-! ## Non-vacuity: concrete histories meeting the hypotheses -/
 
@@ -510,20 +518,20 @@ theorem C18_iff (lim : Nat → Nat) (ops : List Op) :
 def exBad : List Op :=
   [.function "f", .instr false default, .instr true default, .label "a", .function "g", .comment]
 
-example : ∃ k, faultAt Ctx.init exBad k = true := ⟨1, by decide⟩
-example : result (run Ctx.init exBad) = .error [.badOperands] := by decide
-example : numFaults Ctx.init exBad = 1 := by decide
+example : ∃ k, faultAt asciiTag Ctx.init exBad k = true := ⟨1, by decide⟩
+example : result (run asciiTag Ctx.init exBad) = .error [.badOperands] := by decide
+example : numFaults asciiTag Ctx.init exBad = 1 := by decide
 
 /-- a valid history -/
 def exGood : List Op :=
   [.function "f", .signature (some ⟨[("x", .int 8 true)], []⟩), .param "x", .load 0 1 true,
    .instr true default, .staticGlobal "d", .addDatum 0 8, .addDatum 8 8]
 
-example : ∀ k, k < exGood.length → faultAt Ctx.init exGood k = false := by decide
-example : result (run Ctx.init exGood) = .ok := by decide
+example : ∀ k, k < exGood.length → faultAt asciiTag Ctx.init exGood k = false := by decide
+example : result (run asciiTag Ctx.init exGood) = .ok := by decide
 
 /-- an instruction before any function, and an overlapping datum -/
-example : faults Ctx.init [.instr true default, .staticGlobal "d", .addDatum 0 8, .addDatum 4 8]
+example : faults asciiTag Ctx.init [.instr true default, .staticGlobal "d", .addDatum 0 8, .addDatum 4 8]
     = [.noFunc, .overlap] := by decide
 
 /-- a chain that starts at an unknown parameter -/
@@ -535,11 +543,11 @@ example : concat [⟨false, true⟩, ⟨true, false⟩, ⟨true, false⟩] = ⟨
 example : concat [⟨false, false⟩, ⟨true, false⟩, ⟨true, false⟩] = ⟨true, 3, [1, 2]⟩ := by decide
 
 /-- Main on the faulty history: status 1, no pass executed, no printer, one diagnostic line -/
-example : main 0 (stdPasses (fun _ => 15) (run Ctx.init exBad)) (run Ctx.init exBad) = ⟨1, 0, [], 1⟩ := by decide
+example : main 0 (stdPasses (fun _ => 15) (run asciiTag Ctx.init exBad)) (run asciiTag Ctx.init exBad) = ⟨1, 0, [], 1⟩ := by decide
 /-- … and with an error limit of 2 on five errors: two lines and "too many errors" -/
 example : logLines 2 5 = 3 := by decide
 /-- Main on the valid history: status 0, all three passes, both printers -/
-example : main 0 (stdPasses (fun _ => 15) (run Ctx.init exGood)) (run Ctx.init exGood) = ⟨0, 3, [1, 2], 0⟩ := by decide
+example : main 0 (stdPasses (fun _ => 15) (run asciiTag Ctx.init exGood)) (run asciiTag Ctx.init exGood) = ⟨0, 3, [1, 2], 0⟩ := by decide
 /-- the acceptor rejects a panic, a written output next to a fault, and a dropped message -/
 example : c18Accept 0 0 false [] ⟨0, 0, 10, 10, 0, 1, none⟩ = false := by decide
 example : c18Accept 1 0 false [] ⟨1, 1, 10, 0, 1, 0, none⟩ = false := by decide
@@ -560,13 +568,13 @@ example : c18Accept 0 1 false [] ⟨2, 1, 0, 0, 2, 0, none⟩ = false := by deci
 example : c18Accept 0 1 false [] ⟨1, 0, 79, 68, 1, 0, none⟩ = false := by decide
 
 /-- hypotheses of `C18` and of `stub_failure_violates` are satisfiable -/
-example : ¬ stubFailureReached (fun _ => 15) exGood := by decide
-example : stubFailureReached (fun _ => 15) [.function "", .instr true default] := by decide
-example : stubFailureReached (fun _ => 15) [.function "1 f", .instr true default] := by decide
-example : stubFailureReached (fun _ => 15) [.function "f", .pragma true, .instr true default] := by decide
+example : ¬ stubFailureReached asciiTag (fun _ => 15) exGood := by decide
+example : stubFailureReached asciiTag (fun _ => 15) [.function "", .instr true default] := by decide
+example : stubFailureReached asciiTag (fun _ => 15) [.function "1 f", .instr true default] := by decide
+example : stubFailureReached asciiTag (fun _ => 15) [.function "f", .pragma true, .instr true default] := by decide
 /-- a later `Doc` replaces the broken one; a later plain `Pragma` does not -/
-example : ¬ stubFailureReached (fun _ => 15) [.function "f", .doc true, .doc false, .instr true default] := by decide
-example : stubFailureReached (fun _ => 15) [.function "f", .pragma true, .pragma false, .instr true default] := by decide
+example : ¬ stubFailureReached asciiTag (fun _ => 15) [.function "f", .doc true, .doc false, .instr true default] := by decide
+example : stubFailureReached asciiTag (fun _ => 15) [.function "f", .pragma true, .pragma false, .instr true default] := by decide
 example : isGoIdent "f1" = true ∧ isGoIdent "_x" = true ∧ isGoIdent "func" = false ∧ isGoIdent "a b" = false := by decide
 
 /-- compile-time faults of a concrete function: undefined label and a label at the end -/
@@ -587,29 +595,29 @@ modelling choice. -/
 /-- `ParamIndex(-1)` is an invalid request that must surface as exactly one
 "index out of range" error when the component is loaded (F3: the implementation panics). -/
 theorem witness_paramIndex_negative :
-    faults Ctx.init [.function "f", .signature (some ⟨[("x", .int 8 true)], []⟩), .paramIndex (-1),
-      .load 0 1 false] = [.indexRange] := by decide
+    faults tc Ctx.init [.function "f", .signature (some ⟨[("x", .int 8 true)], []⟩), .paramIndex (-1),
+      .load 0 1 false] = [.indexRange] := by rfl
 
 /-- `Param("x").Index(-1)` on `[2]float64` must be reported as out of bounds
 when loaded (F3: the implementation reports nothing and emits the MOV). -/
 theorem witness_index_negative :
-    faults Ctx.init [.function "f", .signature (some ⟨[("x", .array 2 (.float 8))], []⟩), .param "x",
-      .nav 0 (.index (-1)), .load 1 2 false] = [.arrayBounds] := by decide
+    faults tc Ctx.init [.function "f", .signature (some ⟨[("x", .array 2 (.float 8))], []⟩), .param "x",
+      .nav 0 (.index (-1)), .load 1 2 false] = [.arrayBounds] := by rfl
 
 /-- `RDTSC; CDQ; RET` is a valid history with no compile-time fault for any
 register file, so the property demands status 0 and both outputs written (F4: `Main` panics). -/
 theorem witness_implicit_only_valid (lim : Nat → Nat) :
     let ops := [Op.function "f", .instr true ⟨0, [1], []⟩, .instr true ⟨0, [1], []⟩, .instr true ⟨0, [], []⟩]
-    faults Ctx.init ops = [] ∧ passFaults lim (run Ctx.init ops).fns = [] ∧
-      (observe lim ops).status = 0 ∧ (observe lim ops).asm = 1 ∧ (observe lim ops).stubs = 1 := by
-  refine ⟨by decide, ?_⟩
-  have h : passFaults lim (run Ctx.init [Op.function "f", .instr true ⟨0, [1], []⟩, .instr true ⟨0, [1], []⟩,
+    faults tc Ctx.init ops = [] ∧ passFaults lim (run tc Ctx.init ops).fns = [] ∧
+      (observe tc lim ops).status = 0 ∧ (observe tc lim ops).asm = 1 ∧ (observe tc lim ops).stubs = 1 := by
+  refine ⟨by rfl, ?_⟩
+  have h : passFaults lim (run tc Ctx.init [Op.function "f", .instr true ⟨0, [1], []⟩, .instr true ⟨0, [1], []⟩,
       .instr true ⟨0, [], []⟩]).fns = [] := by
     simp [passFaults, fnPassFaults, run, step, Ctx.newFn, Ctx.addNode, Ctx.withFn, Ctx.init, Ctx.fns,
       Node.memFaults, pruneJumps, pruneDangling, isJumpTo, referenced, Node.target, Instr.target, labelScan]
   refine ⟨h, ?_⟩
   simp only [observe, main, stdPasses, h]
-  decide
+  exact ⟨rfl, rfl, rfl⟩
 
 /-! ## Declarative reading of the faults that depend on the history
 
@@ -652,7 +660,7 @@ def Op.opensGlob : Op → Bool
 @[simp] theorem loadStore_doneGlobs (c : Ctx) (s rk d st) : (c.loadStore s rk d st).doneGlobs = c.doneGlobs := by
   unfold Ctx.loadStore; split <;> (try split) <;> (try split) <;> simp [Ctx.addErr, Ctx.addNode]
 
-theorem step_cur_isSome (c : Ctx) (op : Op) : (step c op).cur.isSome = (c.cur.isSome || op.opensFn) := by
+theorem step_cur_isSome (c : Ctx) (op : Op) : (step tc c op).cur.isSome = (c.cur.isSome || op.opensFn) := by
   cases op with
   | signature s => cases s <;> simp [step, Op.opensFn, Ctx.addErr]
   | instr v i => cases v <;> simp [step, Op.opensFn, Ctx.addErr, Ctx.addNode]
@@ -661,20 +669,21 @@ theorem step_cur_isSome (c : Ctx) (op : Op) : (step c op).cur.isSome = (c.cur.is
     cases c.glob with
     | none => simp [Ctx.addErr]
     | some g => by_cases h : g.overlapsAny off sz = true <;> simp [h, Ctx.addErr]
-  | constraints cs => by_cases h : constraintsValid cs = true <;> simp [step, h, Ctx.addErr, Op.opensFn]
-  | constraint k => by_cases h : constraintsValid (c.cons ++ [k]) = true <;> simp [step, h, Ctx.addErr, Op.opensFn]
-  | constraintExpr k =>
-    by_cases h : constraintsValid (c.cons ++ [k]) = true <;> by_cases h2 : constraintValid k = true <;>
+  | constraints cs => by_cases h : constraintsValid tc cs = true <;> simp [step, h, Ctx.addErr, Op.opensFn]
+  | constraint k => by_cases h : constraintsValid tc (c.cons ++ [k]) = true <;> simp [step, h, Ctx.addErr, Op.opensFn]
+  | constraintExpr text =>
+    by_cases h : constraintsValid tc (c.cons ++ [parseConstraint text]) = true <;>
+      by_cases h2 : constraintValid tc (parseConstraint text) = true <;>
       simp [step, h, h2, Ctx.addErr, Op.opensFn]
   | _ => simp [step, Op.opensFn, Ctx.addNode, Ctx.addErr, Ctx.pushComp, Ctx.newFn]
 
 theorem run_cur_isSome (c : Ctx) (ops : List Op) :
-    (run c ops).cur.isSome = (c.cur.isSome || ops.any Op.opensFn) := by
+    (run tc c ops).cur.isSome = (c.cur.isSome || ops.any Op.opensFn) := by
   induction ops generalizing c with
   | nil => simp [run]
   | cons op ops ih => rw [run_cons, ih, step_cur_isSome]; simp [Bool.or_assoc]
 
-theorem step_glob_isSome (c : Ctx) (op : Op) : (step c op).glob.isSome = (c.glob.isSome || op.opensGlob) := by
+theorem step_glob_isSome (c : Ctx) (op : Op) : (step tc c op).glob.isSome = (c.glob.isSome || op.opensGlob) := by
   cases op with
   | signature s => cases s <;> simp [step, Op.opensGlob, Ctx.addErr]
   | instr v i => cases v <;> simp [step, Op.opensGlob, Ctx.addErr, Ctx.addNode]
@@ -683,15 +692,16 @@ theorem step_glob_isSome (c : Ctx) (op : Op) : (step c op).glob.isSome = (c.glob
     cases hg : c.glob with
     | none => simp [Ctx.addErr, hg]
     | some g => by_cases h : g.overlapsAny off sz = true <;> simp [h, Ctx.addErr, hg]
-  | constraints cs => by_cases h : constraintsValid cs = true <;> simp [step, h, Ctx.addErr, Op.opensGlob]
-  | constraint k => by_cases h : constraintsValid (c.cons ++ [k]) = true <;> simp [step, h, Ctx.addErr, Op.opensGlob]
-  | constraintExpr k =>
-    by_cases h : constraintsValid (c.cons ++ [k]) = true <;> by_cases h2 : constraintValid k = true <;>
+  | constraints cs => by_cases h : constraintsValid tc cs = true <;> simp [step, h, Ctx.addErr, Op.opensGlob]
+  | constraint k => by_cases h : constraintsValid tc (c.cons ++ [k]) = true <;> simp [step, h, Ctx.addErr, Op.opensGlob]
+  | constraintExpr text =>
+    by_cases h : constraintsValid tc (c.cons ++ [parseConstraint text]) = true <;>
+      by_cases h2 : constraintValid tc (parseConstraint text) = true <;>
       simp [step, h, h2, Ctx.addErr, Op.opensGlob]
   | _ => simp [step, Op.opensGlob, Ctx.addNode, Ctx.addErr, Ctx.pushComp, Ctx.newFn]
 
 theorem run_glob_isSome (c : Ctx) (ops : List Op) :
-    (run c ops).glob.isSome = (c.glob.isSome || ops.any Op.opensGlob) := by
+    (run tc c ops).glob.isSome = (c.glob.isSome || ops.any Op.opensGlob) := by
   induction ops generalizing c with
   | nil => simp [run]
   | cons op ops ih => rw [run_cons, ih, step_glob_isSome]; simp [Bool.or_assoc]
@@ -704,19 +714,19 @@ def Op.needsFn : Op → Bool
 
 /-- requests that act on the active data section -/
 def Op.needsGlob : Op → Bool
-  | .dataAttributes _ | .appendDatum _ | .addDatum _ _ => true
+  | .dataAttributes _ | .appendDatum _ | .addDatum _ _ | .addDatumNeg _ _ => true
   | _ => false
 
 /-- **outside_function_iff** ("instruction outside a function").  For every history
 `pre` and every request that acts on the active function: the request is a fault
 exactly when no `Function` call precedes it, and the message is "no active function". -/
 theorem outside_function_iff (pre : List Op) (op : Op) (h : op.needsFn = true) :
-    fault (run Ctx.init pre) op = (if pre.any Op.opensFn then none else some .noFunc) := by
-  have hc := run_cur_isSome Ctx.init pre
+    fault tc (run tc Ctx.init pre) op = (if pre.any Op.opensFn then none else some .noFunc) := by
+  have hc := run_cur_isSome tc Ctx.init pre
   simp only [Ctx.init, Option.isSome_none, Bool.false_or] at hc
-  have hn : noFn (run Ctx.init pre) = (if pre.any Op.opensFn then none else some .noFunc) := by
+  have hn : noFn (run tc Ctx.init pre) = (if pre.any Op.opensFn then none else some .noFunc) := by
     unfold noFn
-    cases hh : pre.any Op.opensFn <;> cases hcur : (run Ctx.init pre).cur <;> simp_all [Ctx.init]
+    cases hh : pre.any Op.opensFn <;> cases hcur : (run tc Ctx.init pre).cur <;> simp_all [Ctx.init]
   cases op with
   | signature s => cases s <;> simp_all [fault, Op.needsFn]
   | instr v i => cases v <;> simp_all [fault, Op.needsFn]
@@ -725,14 +735,28 @@ theorem outside_function_iff (pre : List Op) (op : Op) (h : op.needsFn = true) :
 /-- … and for the data section: without a preceding `StaticGlobal` every datum /
 attribute request is a fault ("no active global"). -/
 theorem outside_global_fault (pre : List Op) (op : Op) (h : op.needsGlob = true)
-    (hpre : pre.any Op.opensGlob = false) : fault (run Ctx.init pre) op = some .noGlobal := by
-  have hc : (run Ctx.init pre).glob.isSome = false := by
+    (hpre : pre.any Op.opensGlob = false) : fault tc (run tc Ctx.init pre) op = some .noGlobal := by
+  have hc : (run tc Ctx.init pre).glob.isSome = false := by
     rw [run_glob_isSome, hpre]; rfl
-  have hg : (run Ctx.init pre).glob = none := by
-    cases hh : (run Ctx.init pre).glob with
+  have hg : (run tc Ctx.init pre).glob = none := by
+    cases hh : (run tc Ctx.init pre).glob with
     | none => rfl
     | some g => rw [hh] at hc; simp at hc
   cases op <;> simp_all [fault, Op.needsGlob, noGl]
+
+/-- **negative_offset_fault** ("bad data placement").  With an active data section
+— opened anywhere earlier in the history — a datum at a negative offset is a
+fault of its own class and leaves every section as it was. -/
+theorem negative_offset_fault (pre : List Op) (below sz : Nat) (h : pre.any Op.opensGlob = true) :
+    fault tc (run tc Ctx.init pre) (.addDatumNeg below sz) = some .negOffset ∧
+    (step tc (run tc Ctx.init pre) (.addDatumNeg below sz)).globs = (run tc Ctx.init pre).globs := by
+  have hc : (run tc Ctx.init pre).glob.isSome = true := by rw [run_glob_isSome, h]; simp
+  have hn : (run tc Ctx.init pre).glob.isNone = false := by
+    cases hg : (run tc Ctx.init pre).glob <;> simp_all
+  exact ⟨by simp [fault, hn], by simp [step, Ctx.addErr, Ctx.globs]⟩
+
+example : faults asciiTag Ctx.init [.staticGlobal "d", .addDatum 0 8, .addDatumNeg 3 4, .addDatum 8 8] = [.negOffset] := by
+  decide
 
 /-! ### No history stores overlapping data -/
 
@@ -774,7 +798,7 @@ theorem Glob.append_no_overlap (g : Glob) (sz : Nat) (hw : g.wf) : g.overlapsAny
 /-- the invariant: every data section of the context is well formed -/
 def Ctx.dataWf (c : Ctx) : Prop := (∀ g ∈ c.doneGlobs, g.wf) ∧ (∀ g, c.glob = some g → g.wf)
 
-theorem step_dataWf (c : Ctx) (op : Op) (h : c.dataWf) : (step c op).dataWf := by
+theorem step_dataWf (c : Ctx) (op : Op) (h : c.dataWf) : (step tc c op).dataWf := by
   obtain ⟨hd, hg⟩ := h
   cases op with
   | signature s => cases s <;> simpa [step, Ctx.dataWf, Ctx.addErr] using ⟨hd, hg⟩
@@ -823,11 +847,12 @@ theorem step_dataWf (c : Ctx) (op : Op) (h : c.dataWf) : (step c op).dataWf := b
     | some g' =>
       simp [hc] at hm; subst hm
       exact Glob.add_wf g' g'.size sz (hg g' hc) (Glob.append_no_overlap g' sz (hg g' hc))
-  | constraints cs => by_cases h : constraintsValid cs = true <;> simpa [step, h, Ctx.addErr, Ctx.dataWf] using ⟨hd, hg⟩
+  | constraints cs => by_cases h : constraintsValid tc cs = true <;> simpa [step, h, Ctx.addErr, Ctx.dataWf] using ⟨hd, hg⟩
   | constraint k =>
-    by_cases h : constraintsValid (c.cons ++ [k]) = true <;> simpa [step, h, Ctx.addErr, Ctx.dataWf] using ⟨hd, hg⟩
-  | constraintExpr k =>
-    by_cases h : constraintsValid (c.cons ++ [k]) = true <;> by_cases h2 : constraintValid k = true <;>
+    by_cases h : constraintsValid tc (c.cons ++ [k]) = true <;> simpa [step, h, Ctx.addErr, Ctx.dataWf] using ⟨hd, hg⟩
+  | constraintExpr text =>
+    by_cases h : constraintsValid tc (c.cons ++ [parseConstraint text]) = true <;>
+      by_cases h2 : constraintValid tc (parseConstraint text) = true <;>
       simpa [step, h, h2, Ctx.addErr, Ctx.dataWf] using ⟨hd, hg⟩
   | _ => simpa [step, Ctx.dataWf, Ctx.addNode, Ctx.addErr, Ctx.pushComp, Ctx.newFn] using ⟨hd, hg⟩
 
@@ -835,11 +860,11 @@ theorem step_dataWf (c : Ctx) (op : Op) (h : c.dataWf) : (step c op).dataWf := b
 with functions and other sections — no data section of the built file ever holds
 two overlapping data, and every datum lies within the section's size: an
 overlapping datum is never stored. -/
-theorem data_disjoint (ops : List Op) : ∀ g ∈ (run Ctx.init ops).globs, g.wf := by
-  have hinv : ∀ (c : Ctx), c.dataWf → (run c ops).dataWf := by
+theorem data_disjoint (ops : List Op) : ∀ g ∈ (run tc Ctx.init ops).globs, g.wf := by
+  have hinv : ∀ (c : Ctx), c.dataWf → (run tc c ops).dataWf := by
     induction ops with
     | nil => intro c h; exact h
-    | cons op ops ih => intro c h; rw [run_cons]; exact ih _ (step_dataWf c op h)
+    | cons op ops ih => intro c h; rw [run_cons]; exact ih _ (step_dataWf tc c op h)
   have h := hinv Ctx.init ⟨by simp [Ctx.init], by simp [Ctx.init]⟩
   intro g hm
   simp only [Ctx.globs, List.mem_append, Option.mem_toList] at hm
@@ -848,7 +873,232 @@ theorem data_disjoint (ops : List Op) : ∀ g ∈ (run Ctx.init ops).globs, g.wf
   · exact h.2 g hm
 
 /-- non-vacuity: a section with three data, one request refused in between -/
-example : (run Ctx.init [.staticGlobal "d", .addDatum 0 8, .addDatum 4 8, .appendDatum 4, .addDatum 16 2]).globs.map
+example : (run asciiTag Ctx.init [.staticGlobal "d", .addDatum 0 8, .addDatum 4 8, .appendDatum 4, .addDatum 16 2]).globs.map
     (·.data) = [[(0, 8), (8, 4), (16, 2)]] := by decide
+
+/-! ## Build constraints: what an invalid constraint is, and that nothing masks one
+
+Everything in this section holds for every tag-character predicate `tc`;
+`Props/C18Tables.lean` instantiates it with the table measured from the installed
+`go/build/constraint`, so that "invalid" means *invalid to the Go toolchain*. -/
+
+/-- A tag: a non-empty word of tag characters. -/
+def IsTag (n : List Char) : Prop := n ≠ [] ∧ ∀ c ∈ n, tc c = true
+
+/-- **termValid_iff.** Declarative reading of term validity: a term is valid
+exactly when it is a tag or `!` followed by a tag (`!` itself not being a tag character). -/
+theorem termValid_iff (hbang : tc '!' = false) (t : List Char) :
+    termValid tc t = true ↔ ∃ n, IsTag tc n ∧ (t = n ∨ t = '!' :: n) := by
+  have notTag : ∀ r : List Char, ¬ IsTag tc ('!' :: r) := by
+    intro r h; have := h.2 '!' List.mem_cons_self; simp [hbang] at this
+  unfold termValid
+  split
+  · -- `!!…`
+    rename_i r
+    constructor
+    · intro h; simp at h
+    · rintro ⟨n, hn, h | h⟩
+      · subst h; exact absurd hn (notTag _)
+      · simp only [List.cons.injEq, true_and] at h; subst h; exact absurd hn (notTag _)
+  · rename_i hne
+    cases t with
+    | nil =>
+      constructor
+      · intro h; simp [termName] at h
+      · rintro ⟨n, hn, h | h⟩
+        · subst h; exact absurd rfl hn.1
+        · simp at h
+    | cons c r =>
+      by_cases hc : c = '!'
+      · subst hc
+        have hname : termName ('!' :: r) = r := rfl
+        rw [hname]
+        constructor
+        · intro h
+          simp only [Bool.and_eq_true, Bool.not_eq_true', List.isEmpty_eq_false_iff, List.all_eq_true] at h
+          exact ⟨r, ⟨h.1, h.2⟩, Or.inr rfl⟩
+        · rintro ⟨n, hn, h | h⟩
+          · subst h; exact absurd hn (notTag _)
+          · simp only [List.cons.injEq, true_and] at h; subst h
+            simp only [Bool.and_eq_true, Bool.not_eq_true', List.isEmpty_eq_false_iff, List.all_eq_true]
+            exact ⟨hn.1, hn.2⟩
+      · have hname : termName (c :: r) = c :: r := by
+          unfold termName; split
+          · rename_i h; simp at h; exact absurd h.1 hc
+          · rfl
+        rw [hname]
+        constructor
+        · intro h
+          simp only [Bool.and_eq_true, Bool.not_eq_true', List.isEmpty_eq_false_iff, List.all_eq_true] at h
+          exact ⟨c :: r, ⟨h.1, h.2⟩, Or.inl rfl⟩
+        · rintro ⟨n, hn, h | h⟩
+          · subst h
+            simp only [Bool.and_eq_true, Bool.not_eq_true', List.isEmpty_eq_false_iff, List.all_eq_true]
+            exact ⟨hn.1, hn.2⟩
+          · simp only [List.cons.injEq] at h; exact absurd h.1 hc
+
+/-- One character of the tag name that is not a tag character makes the term invalid,
+wherever it stands (first, middle, last; negated term or not). -/
+theorem bad_char_invalid (t : List Char) (c : Char) (hc : c ∈ termName t) (hbad : tc c = false) :
+    termValid tc t = false := by
+  unfold termValid
+  split
+  · rfl
+  · have : (termName t).all tc = false := by
+      simp only [List.all_eq_false]; exact ⟨c, hc, by simp [hbad]⟩
+    simp [this]
+
+/-- A constraint line with an invalid term anywhere — whichever option, whichever
+position in the option — is invalid. -/
+theorem constraintValid_false_of_term (k : Constraint) (o : Option') (t : List Char)
+    (ho : o ∈ k) (ht : t ∈ o) (hbad : termValid tc t = false) : constraintValid tc k = false := by
+  have hov : optionValid tc o = false := by
+    unfold optionValid
+    have : o.all (termValid tc) = false := by
+      simp only [List.all_eq_false]; exact ⟨t, ht, by simp [hbad]⟩
+    simp [this]
+  unfold constraintValid
+  have : k.all (optionValid tc) = false := by
+    simp only [List.all_eq_false]; exact ⟨o, ho, by simp [hov]⟩
+  simp [this]
+
+theorem constraintsValid_false_of_mem (ks : List Constraint) (k : Constraint) (hk : k ∈ ks)
+    (hbad : constraintValid tc k = false) : constraintsValid tc ks = false := by
+  unfold constraintsValid
+  simp only [List.all_eq_false]; exact ⟨k, hk, by simp [hbad]⟩
+
+/-- An empty constraint line and an empty option are invalid. -/
+theorem constraintValid_nil : constraintValid tc [] = false := rfl
+theorem constraintValid_empty_option (k : Constraint) (h : [] ∈ k) : constraintValid tc k = false := by
+  unfold constraintValid
+  have : k.all (optionValid tc) = false := by
+    simp only [List.all_eq_false]; exact ⟨[], h, by simp [optionValid]⟩
+  simp [this]
+
+/-- The constraint lines a request submits, by any of the three routes
+(`Constraints`, `Constraint`, `ConstraintExpr`; the package-level functions call the same methods). -/
+def Op.submitted : Op → Option (List Constraint)
+  | .constraints cs => some cs
+  | .constraint k => some [k]
+  | .constraintExpr text => some [parseConstraint text]
+  | _ => none
+
+@[simp] theorem withFn_cons (c : Ctx) (f) : (c.withFn f).cons = c.cons := by
+  unfold Ctx.withFn; cases h : c.cur <;> simp [Ctx.addErr]
+@[simp] theorem withGlob_cons (c : Ctx) (f) : (c.withGlob f).cons = c.cons := by
+  unfold Ctx.withGlob; cases h : c.glob <;> simp [Ctx.addErr]
+@[simp] theorem rootComp_cons (c : Ctx) (p) : (c.rootComp p).cons = c.cons := by
+  unfold Ctx.rootComp; cases h : c.cur <;> simp [Ctx.addErr, Ctx.pushComp]
+@[simp] theorem loadStore_cons (c : Ctx) (s rk d st) : (c.loadStore s rk d st).cons = c.cons := by
+  unfold Ctx.loadStore; split <;> (try split) <;> (try split) <;> simp [Ctx.addErr, Ctx.addNode]
+
+/-- Invariant: the constraints a context holds are valid after every request. -/
+theorem step_cons_valid (c : Ctx) (op : Op) (h : constraintsValid tc c.cons = true) :
+    constraintsValid tc (step tc c op).cons = true := by
+  cases op with
+  | signature s => cases s <;> simpa [step, Ctx.addErr] using h
+  | instr v i => cases v <;> simpa [step, Ctx.addErr, Ctx.addNode] using h
+  | addDatum off sz =>
+    simp only [step]
+    cases c.glob with
+    | none => simpa [Ctx.addErr] using h
+    | some g => by_cases ho : g.overlapsAny off sz = true <;> simpa [ho, Ctx.addErr] using h
+  | constraints cs => by_cases hv : constraintsValid tc cs = true <;> simp [step, hv, Ctx.addErr, h]
+  | constraint k =>
+    by_cases hv : constraintsValid tc (c.cons ++ [k]) = true <;> simp [step, hv, Ctx.addErr, h]
+  | constraintExpr text =>
+    by_cases hv : constraintsValid tc (c.cons ++ [parseConstraint text]) = true <;>
+      by_cases h2 : constraintValid tc (parseConstraint text) = true <;> simp [step, hv, h2, Ctx.addErr, h]
+  | _ => simpa [step, Ctx.addNode, Ctx.addErr, Ctx.pushComp, Ctx.newFn] using h
+
+/-- **cons_always_valid.** Whatever the history, the file never holds an invalid constraint. -/
+theorem cons_always_valid (ops : List Op) : constraintsValid tc (run tc Ctx.init ops).cons = true := by
+  have hinv : ∀ c : Ctx, constraintsValid tc c.cons = true → constraintsValid tc (run tc c ops).cons = true := by
+    induction ops with
+    | nil => intro c h; exact h
+    | cons op ops ih => intro c h; rw [run_cons]; exact ih _ (step_cons_valid tc c op h)
+  exact hinv Ctx.init rfl
+
+/-- **constraint_fault_iff** ("invalid constraint").  After ANY history, a
+constraint request — by whichever route — is a fault exactly when one of the
+lines it submits is invalid; nothing the context holds can mask it or make a
+valid request fail. -/
+theorem constraint_fault_iff (pre : List Op) (op : Op) (ks : List Constraint) (h : op.submitted = some ks) :
+    fault tc (run tc Ctx.init pre) op = (if constraintsValid tc ks then none else some .constraint) := by
+  have hinv := cons_always_valid tc pre
+  cases op <;> simp only [Op.submitted, Option.some.injEq, reduceCtorEq] at h
+  · subst h; rfl
+  · subst h; simp only [fault]; rw [constraintsValid_append, hinv]; simp [constraintsValid]
+  · subst h; simp only [fault]; rw [constraintsValid_append, hinv]; simp [constraintsValid]
+
+theorem faultAt_mid (pre post : List Op) (op : Op) :
+    faultAt tc Ctx.init (pre ++ op :: post) pre.length = (fault tc (run tc Ctx.init pre) op).isSome := by
+  simp [faultAt, stateAt]
+
+/-- **any_fault_stops.** End to end, for every history and register file: if any
+request is a builder-time fault, generation fails with status 1, no pass was
+executed, neither printer ran, nothing was written, and there is one diagnostic
+line per fault. -/
+theorem any_fault_stops (lim : Nat → Nat) (ops : List Op) (k : Nat) (h : faultAt tc Ctx.init ops k = true) :
+    (observe tc lim ops).status = 1 ∧ (observe tc lim ops).asm = 0 ∧ (observe tc lim ops).stubs = 0 ∧
+    (observe tc lim ops).errs = numFaults tc Ctx.init ops ∧ 0 < (observe tc lim ops).errs ∧
+    (observe tc lim ops).diag = (observe tc lim ops).errs ∧ (observe tc lim ops).panics = 0 ∧
+    (main 0 (stdPasses lim (run tc Ctx.init ops)) (run tc Ctx.init ops)).executed = 0 := by
+  obtain ⟨es, hres, hes, hlen, hne⟩ := bad_never_masked tc ops ⟨k, h⟩
+  have hm := (main_stops 0 (stdPasses lim (run tc Ctx.init ops)) (run tc Ctx.init ops) es hres)
+  have hcount := errs_count tc ops
+  have hpos : 0 < es.length := by cases es with
+    | nil => exact absurd rfl hne
+    | cons a as => simp
+  rw [← hlen] at hcount
+  simp only [observe, hm.1, hcount]
+  exact ⟨trivial, by simp, by simp, hlen, hpos, hm.2, trivial, trivial⟩
+
+/-- **bad_constraint_stops.** A history that contains — anywhere, by any of the
+three routes, whatever precedes and follows — a constraint request submitting an
+invalid line ends with status 1, nothing written, at least one diagnostic. -/
+theorem bad_constraint_stops (lim : Nat → Nat) (pre post : List Op) (op : Op) (ks : List Constraint)
+    (h : op.submitted = some ks) (hbad : constraintsValid tc ks = false) :
+    (observe tc lim (pre ++ op :: post)).status = 1 ∧ (observe tc lim (pre ++ op :: post)).asm = 0 ∧
+    (observe tc lim (pre ++ op :: post)).stubs = 0 ∧ 0 < (observe tc lim (pre ++ op :: post)).errs ∧
+    (observe tc lim (pre ++ op :: post)).diag = (observe tc lim (pre ++ op :: post)).errs := by
+  have hf : faultAt tc Ctx.init (pre ++ op :: post) pre.length = true := by
+    rw [faultAt_mid, constraint_fault_iff tc pre op ks h, hbad]; rfl
+  have := any_fault_stops tc lim _ _ hf
+  exact ⟨this.1, this.2.1, this.2.2.1, this.2.2.2.2.1, this.2.2.2.2.2.1⟩
+
+/-- … in particular when a single character of a single tag name, at any
+position of any term of any option of any submitted line, is not a tag character. -/
+theorem bad_tag_char_stops (lim : Nat → Nat) (pre post : List Op) (op : Op) (ks : List Constraint)
+    (k : Constraint) (o : Option') (t : List Char) (ch : Char)
+    (h : op.submitted = some ks) (hk : k ∈ ks) (ho : o ∈ k) (ht : t ∈ o) (hc : ch ∈ termName t)
+    (hbad : tc ch = false) :
+    (observe tc lim (pre ++ op :: post)).status = 1 ∧ (observe tc lim (pre ++ op :: post)).asm = 0 ∧
+    (observe tc lim (pre ++ op :: post)).stubs = 0 ∧ 0 < (observe tc lim (pre ++ op :: post)).errs ∧
+    (observe tc lim (pre ++ op :: post)).diag = (observe tc lim (pre ++ op :: post)).errs :=
+  bad_constraint_stops tc lim pre post op ks h
+    (constraintsValid_false_of_mem tc ks k hk
+      (constraintValid_false_of_term tc k o t ho ht (bad_char_invalid tc t ch hc hbad)))
+
+/-- … and a valid constraint request is never a fault (valid ⇒ no error), after any history. -/
+theorem valid_constraint_no_fault (pre : List Op) (op : Op) (ks : List Constraint)
+    (h : op.submitted = some ks) (hv : constraintsValid tc ks = true) :
+    fault tc (run tc Ctx.init pre) op = none := by
+  rw [constraint_fault_iff tc pre op ks h, hv]; rfl
+
+/-! non-vacuity (ASCII table) -/
+example : termValid asciiTag "linux".toList = true ∧ termValid asciiTag "!go1.18".toList = true ∧
+    termValid asciiTag "!!x".toList = false ∧ termValid asciiTag "!".toList = false ∧
+    termValid asciiTag "a-b".toList = false ∧ termValid asciiTag [] = false := by decide
+example : parseConstraint "linux,386  darwin,!cgo\t".toList =
+    [["linux".toList, "386".toList], ["darwin".toList, "!cgo".toList]] := by decide
+example : parseConstraint " ".toList = [] ∧ parseConstraint "a,".toList = [["a".toList, []]] := by decide
+example : (observe asciiTag (fun _ => 15)
+    [.function "f", .constraint [["amd64".toList]], .constraintExpr "v-2".toList, .constraint [["linux".toList]],
+     .instr true default]).status = 1 := by decide
+example : (observe asciiTag (fun _ => 15)
+    [.function "f", .constraint [["amd64".toList]], .constraintExpr "v2 !x,y".toList, .instr true default])
+    = ⟨0, 0, 1, 1, 0, 0, none⟩ := by decide
+example : Op.submitted (.constraintExpr "a b".toList) = some [[["a".toList], ["b".toList]]] := by decide
 
 end Avo.Ctx
